@@ -145,6 +145,39 @@ def large_circles(ao, rng, quick):
     return bad, n_px, n_skip, len(cases)
 
 
+def grey_relations(ao, rng, quick):
+    """masks with arbitrary (non-dyadic) transmissions, mask size a multiple of the sub-aperture count: the fills returned by the
+    selection ARE those of computeFillFactor (bit for bit), and a threshold placed exactly on a cell's fill selects that cell"""
+    from aotools.wfs import wfslib
+    bad = []
+    n = 0
+    for M, S in ((8, 4), (12, 4), (10, 2), (9, 3), (12, 6), (15, 5)) if quick else ((8, 4), (12, 4), (10, 2), (9, 3), (12, 6), (15, 5), (20, 4), (21, 7), (16, 8)):
+        yy, xx = np.indices((M, M))
+        for kind in range(3):
+            if kind == 0:
+                mask = np.sin(0.37 * (xx + 1)) ** 2 * np.cos(0.21 * (yy + 2)) ** 2
+            elif kind == 1:
+                mask = np.clip(1.1 - np.hypot(xx - M / 2.0 + 0.3, yy - M / 2.0 - 0.2) / (M / 2.0), 0, 1) ** 1.7
+            else:
+                mask = rng.random((M, M)) * (rng.random((M, M)) > 0.3)
+            coords, fills = wfslib.findActiveSubaps(S, mask.copy(), 0.0, returnFill=True)
+            coords, fills = np.asarray(coords), np.asarray(fills)
+            ff = np.asarray(wfslib.computeFillFactor(mask.copy(), coords, M // S))
+            n += 1
+            if fills.shape != (S * S,) or ff.shape != fills.shape or not np.array_equal(ff, fills):
+                bad.append(("subaps:fillfactor-agree:grey-mask", dict(M=M, S=S, kind=kind, max_diff=float(np.abs(ff - fills).max()) if ff.shape == fills.shape else None)))
+                return bad, n
+            for t in np.unique(fills)[:: max(1, len(np.unique(fills)) // 6)]:
+                sel = np.asarray(wfslib.findActiveSubaps(S, mask.copy(), float(t)))
+                want = coords[fills >= t]
+                n += 1
+                if sel.shape != want.shape or not np.array_equal(sel, want):
+                    bad.append(("subaps:active-set:threshold-equal-to-a-cell-fill:grey-mask", dict(M=M, S=S, kind=kind, threshold=float(t),
+                                                                                                    selected=int(len(sel)), expected=int(len(want)))))
+                    return bad, n
+    return bad, n
+
+
 def run(run):
     ao = core.import_aotools()
     cfg = "Pupil_quick.cfg" if run.tier == "quick" else "Pupil_thorough.cfg"
@@ -168,6 +201,11 @@ def run(run):
             run.violation(key, detail, c)
     if not r.printed:
         raise core.MachineryError("TLC printed no case")
+    badg, n_grey = grey_relations(ao, np.random.default_rng(run.seed), run.tier == "quick")
+    run.traces += n_grey
+    run.aux["grey_mask_relations"] = n_grey
+    for key, detail in badg:
+        run.violation(key, detail, dict(kind="grey", detail=detail))
     bad, n_px, n_skip, n_big = large_circles(ao, np.random.default_rng(run.seed), run.tier == "quick")
     run.traces += n_big
     run.aux.update(large_grid_masks=n_big, large_grid_pixels_judged=n_px, large_grid_pixels_on_the_boundary_not_judged=n_skip)
@@ -185,6 +223,10 @@ def run(run):
 
 def replay(run, case):
     ao = core.import_aotools()
+    if case.get("kind") == "grey":
+        for key, detail in grey_relations(ao, np.random.default_rng(run.seed), run.tier == "quick")[0]:
+            run.violation(key, detail, case)
+        return
     if case.get("kind") == "large":
         for key, detail in large_circles(ao, np.random.default_rng(run.seed), run.tier == "quick")[0]:
             run.violation(key, detail, case)
